@@ -11,6 +11,8 @@ def run(R, tier, seed, only=None):
         kchecks.check_dialect(R, drv, tier)
     if only in (None, "target"):
         kchecks.check_target(R, drv, tier)
+    if only in (None, "route"):
+        kchecks.check_dialect_route(R, drv, tier)
     drv.close()
     R.cov["bounds"] = {"option": "absent or any of the 12 dialects", "header": "absent / present; parse outcome symbolic (Ok(Sql(None)), Ok(Sql(Some(d))) for all d, Err)",
                        "target string": "every string (z3 string theory), no length bound"}
